@@ -151,7 +151,7 @@ func (v *Inv) brief() map[string]any {
 }
 
 type Log struct {
-	Invs    []*Inv
+	Invs       []*Inv
 	noExit     bool
 	keepAll    bool
 	minimizing bool
